@@ -1,0 +1,12 @@
+//go:build verif
+
+package tree
+
+import "github.com/pinealctx/neptune/ds/tree/btree"
+
+// VerifInner returns the wrapped b-tree so that its structural invariants can
+// be checked (verification hook). The caller must not use it concurrently with
+// writers.
+func (b *BTree) VerifInner() *btree.BTree {
+	return b.t
+}
